@@ -37,7 +37,7 @@ def run(ctx):
             why.append("spectrum")
         if not bad["sysret"]:
             why.append("Eigensystem did not return (%s)" % bad["syshow"])
-        elif not bad["syscnt"] or bad["normq"] > 1 or bad["resq"] > 1 or bad["parq"] > 1:
+        elif not bad["syscnt"] or bad["normq"] > 1 or bad["resq"] > 1 or bad["parq"] > 1 or bad.get("sysvalq", 0) > 1:
             why.append("eigenpairs")
         return "Eig %s n=%d: %s" % (bad["cls"], bad["n"], ", ".join(why))
 
